@@ -18,6 +18,7 @@ RULE = (
     "SigmaError naming an unresolved placeholder; no query may contain %Pi%. non-trivial = value with >= 1 placeholder and "
     ">= 1 pipeline item; distinct by (rule, pipeline)."
 )
+RULE += (" " + "Modifier variants include 'all' on a single value and case-sensitive values. For single value-list items the same transformation objects are first combined with another variable table, then with the judged one (differential).")
 ASSUMPTIONS = ["reference expansion semantics in this module (cross product, OR-linked, wildcard, query expression for placeholder-only values, include/exclude)",
                "decoder mc/qparse.py; verification backend K0"]
 PARTS = ["a", "*", "%P1%", "%P2%", "%P3%", "\\%x\\%"]
